@@ -29,9 +29,21 @@ def signature(recs, k, mon):
 
 
 def run_topic_check(ctx, prop, *, kinds, want, given, maxseq, u1_quick, u1_thorough, sim_quick, sim_thorough,
-                    extra_props=(), nusers=3, sess_per_user=1, maxsubs=3, extra_behaviours=None, assumptions=(), rule="", delranges=None, maxdel=2, faults=None):
+                    extra_props=(), nusers=3, sess_per_user=1, maxsubs=3, extra_behaviours=None, assumptions=(), rule="", delranges=None, maxdel=2, faults=None, p2p=False, root=False):
     thorough = ctx.tier == "thorough"
-    users, sess, topics = world.population(nusers, sess_per_user)
+    users, sess, topics = world.population(nusers, sess_per_user, ("g1", "p12") if p2p else ("g1",))
+    levels, roots = {}, []
+    if root:
+        ru = "u%d" % (len(users) + 1)
+        rs = "s%d" % (len(sess) + 1)
+        users.append(ru)
+        sess[rs] = ru
+        levels[ru] = "root"
+        roots = [rs]
+    if p2p:
+        kinds = list(kinds) + ["P2P"]
+    if root:
+        kinds = list(kinds) + ["Obo"]
     props = [prop] + list(extra_props)
 
     # ---- U1: exhaustive check of the as-intended design (monitors of this property on every model transition)
@@ -57,15 +69,21 @@ def run_topic_check(ctx, prop, *, kinds, want, given, maxseq, u1_quick, u1_thoro
         if cex:
             behs.append(cex)
             labels.append(dev)
+    # ---- goal-directed behaviours (trap properties on the as-built model): make the monitors' rare antecedents true
+    if len(users) - (1 if root else 0) >= 3:
+        gb = world.goal_behaviours(ctx, [u for u in users if u not in levels], {k: v for k, v in sess.items() if k not in roots}, ["g1"], maxsubs=maxsubs)
+        for name, b in sorted(gb.items()):
+            behs.append(b)
+            labels.append("goal:" + name)
     nreg = len(behs)
     # ---- simulated behaviours from the as-built model
     sim = sim_thorough if thorough else sim_quick
-    cb = world.mc_consts(users, sess, topics, world.DEV_BUILT, want, given, kinds, [prop], maxseq=maxseq, maxsubs=maxsubs, delranges=delranges, maxdel=maxdel)
+    cb = world.mc_consts(users, sess, topics, world.DEV_BUILT, want, given, kinds, [prop], maxseq=maxseq, maxsubs=maxsubs, delranges=delranges, maxdel=maxdel, roots=roots)
     sims, rs = world.simulate(ctx, "Sim_" + prop, cb, sim["num"], sim["depth"], ctx.seed)
     behs += sims
     if extra_behaviours:
         behs += extra_behaviours(users, sess, topics)
-    bj = world.behaviours_json(behs, users, sess, topics, maxsubs=maxsubs)
+    bj = world.behaviours_json(behs, users, sess, topics, maxsubs=maxsubs, levels=levels)
     trace, wall = world.replay(ctx, bj)
     r2, recs, fails, divs = world.check_traces(ctx, trace, cb, props, timeout=1500)
     n = world.report(ctx, recs, fails, divs, prop, sig=signature)
@@ -106,7 +124,7 @@ def run_topic_check(ctx, prop, *, kinds, want, given, maxseq, u1_quick, u1_thoro
             v += steps[i:i + 3]
             fvars.append(v)
         if fvars:
-            fbj = world.behaviours_json(fvars, users, sess, topics, prefix="f", maxsubs=maxsubs)
+            fbj = world.behaviours_json(fvars, users, sess, topics, prefix="f", maxsubs=maxsubs, levels=levels)
             ftrace, _ = world.replay(ctx, fbj, tag="f")
             r3, frecs, ffails, fdivs = world.check_traces(ctx, ftrace, cb, props, name="TraceRunF", timeout=1500)
             nf = world.report(ctx, frecs, ffails, fdivs, prop, sig=signature)
@@ -118,7 +136,7 @@ def run_topic_check(ctx, prop, *, kinds, want, given, maxseq, u1_quick, u1_thoro
                                          "modes": list(faults.get("modes", ("error",)))}
             recs = recs + frecs
             bj = bj + fbj
-    vlib.log("replayed %d behaviours (%d regression, %d simulated), %d steps; %d failures of %s monitors; %d divergences" % (
+    vlib.log("replayed %d behaviours (%d regression/goal-directed, %d simulated), %d steps; %d failures of %s monitors; %d divergences" % (
         len(bj), nreg, len(sims), len(recs), n, prop, len(divs)))
     nontriv = len({json.dumps(r["act"], sort_keys=True) + "|" + json.dumps(recs[i - 1]["st"]["subs"], sort_keys=True)
                    for i, r in enumerate(recs) if r["i"] > 0 and r["reply"].get("code", 0) not in (0,)})
